@@ -9,7 +9,9 @@ Ev     == Trace[l + 1]
 LastEv == Trace[l]
 I0     == Trace[i0]
 D0     == I0.dev
-T      == I0.tgt
+\* merge cases on a non-empty vsys carry the expected effective target (parts.merged)
+HasMerged == "parts" \in DOMAIN I0.tgt /\ "merged" \in DOMAIN I0.tgt.parts
+T      == IF HasMerged THEN I0.tgt.parts.merged ELSE I0.tgt
 
 RuleOf(j) == [name |-> j.name, action |-> j.action, src |-> ToSet(j.src), dst |-> ToSet(j.dst),
               svc |-> ToSet(j.svc), extra |-> j.extra]
@@ -73,16 +75,16 @@ Equivalent == ExpRules(rules, addr, grp, svc, sgrp)
               = ExpRules(RulesOf(T), AddrOf(T), GrpOf(T), SvcOf(T), SGrpOf(T))
 
 \* C18: the rulebase the script built on the empty vsys is the effective (merged) target
-IsMerge == "parts" \in DOMAIN T
+IsMerge == "parts" \in DOMAIN I0.tgt
 ToM(q) == [i \in DOMAIN q |-> [act |-> q[i].action, r |-> q[i]]]
 PartOf(q) == ToM([i \in DOMAIN q |-> RuleOf(q[i])])
-MergeOK == Admissible(ToM(rules), PartOf(T.parts.v4), PartOf(T.parts.v6), PartOf(T.parts.pre), PartOf(T.parts.app))
-MergeWhy == Why(ToM(rules), PartOf(T.parts.v4), PartOf(T.parts.v6), PartOf(T.parts.pre), PartOf(T.parts.app))
+MergeOK == Admissible(ToM(rules), PartOf(I0.tgt.parts.v4), PartOf(I0.tgt.parts.v6), PartOf(I0.tgt.parts.pre), PartOf(I0.tgt.parts.app))
+MergeWhy == Why(ToM(rules), PartOf(I0.tgt.parts.v4), PartOf(I0.tgt.parts.v6), PartOf(I0.tgt.parts.pre), PartOf(I0.tgt.parts.app))
 \* known finding: PAN-OS appends <APPEND/> rules behind the whole Netspoc rulebase, i.e. also behind its trailing deny rules
 KF_AppendBehindDeny ==
-  /\ Complete(ToM(rules), {PartOf(T.parts.v4), PartOf(T.parts.v6), PartOf(T.parts.pre), PartOf(T.parts.app)})
-  /\ \A r \in Rng(PartOf(T.parts.pre)), n \in Rng(PartOf(T.parts.v4)) \cup Rng(PartOf(T.parts.v6)) : Pos(ToM(rules), r) < Pos(ToM(rules), n)
-  /\ \A a \in Rng(PartOf(T.parts.app)), n \in Rng(PartOf(T.parts.v4)) \cup Rng(PartOf(T.parts.v6)) : Pos(ToM(rules), n) < Pos(ToM(rules), a)
+  /\ Complete(ToM(rules), {PartOf(I0.tgt.parts.v4), PartOf(I0.tgt.parts.v6), PartOf(I0.tgt.parts.pre), PartOf(I0.tgt.parts.app)})
+  /\ \A r \in Rng(PartOf(I0.tgt.parts.pre)), n \in Rng(PartOf(I0.tgt.parts.v4)) \cup Rng(PartOf(I0.tgt.parts.v6)) : Pos(ToM(rules), r) < Pos(ToM(rules), n)
+  /\ \A a \in Rng(PartOf(I0.tgt.parts.app)), n \in Rng(PartOf(I0.tgt.parts.v4)) \cup Rng(PartOf(I0.tgt.parts.v6)) : Pos(ToM(rules), n) < Pos(ToM(rules), a)
 
 Post(j) == rules = RulesOf(j) /\ addr = AddrOf(j) /\ grp = GrpOf(j) /\ svc = SvcOf(j) /\ sgrp = SGrpOf(j)
 Chk(ok, tag, detail, kf) == ok \/ PrintT(<<"VERR", LastEv.t, l, tag, detail, kf>>)
@@ -101,7 +103,8 @@ Mon ==
   /\ Chk(~(err # "" /\ errl = l), "C08", err, KFKey)
   /\ Chk(foreign = "" \/ LastEv.ev = "Init", "C07", "command addresses a vsys outside the target: " \o foreign, "")
   /\ Chk(LastEv.ev \in {"Resume", "Done"} => Post(LastEv.post), "HARNESS", "post state of replica differs", "")
-  /\ Chk(LastEv.ev = "Done" /\ IsMerge => MergeOK, "C18", IF IsMerge THEN MergeWhy ELSE "",
+  /\ Chk(LastEv.ev = "Done" /\ HasMerged => Equivalent, "C18", "rulebase is not raw, Netspoc, APPEND", "")
+  /\ Chk(LastEv.ev = "Done" /\ IsMerge /\ ~HasMerged => MergeOK, "C18", IF IsMerge THEN MergeWhy ELSE "",
          IF IsMerge /\ KF_AppendBehindDeny THEN "PanosAppendBehindDeny" ELSE "")
   /\ Chk(LastEv.ev = "Done" /\ ~IsMerge => Equivalent, "EQUIV", IF nchg = 0 THEN "unchanged" ELSE "final", KFKey)
   /\ Chk(LastEv.ev = "Done" => LastEv.n2 = 0, "FIXPOINT", "second compare reports changes", KFKey)
